@@ -33,7 +33,9 @@ def dataset_cfg(rng, tier, prop):
            "nan_rate": rng.choice([0.0, 0.2]), "meta_density": rng.choice([0.0, 0.6, 1.0]), "mutable_meta": False,
            "mode": mode, "start": rng.choice(["empty", "ctor", "ctor", "ctor_diff"]),
            "op_rate": {"C13": 0.0, "C14": rng.choice([0.3, 0.5, 0.7])}[prop],
-           "reject_rate": rng.choice([0.1, 0.25]) if prop == "C13" else 0.0}
+           "reject_rate": rng.choice([0.1, 0.25]) if prop == "C13" else 0.0,
+           # the Dataset constructor joins outer whatever the global default of align() is
+           "align_join": rng.choice(["outer", "outer", "outer", "inner"])}
     cfg["min_len"] = min(cfg["min_len"], cfg["max_len"])
     if mode == "enum":
         cfg["n_base"] = rng.randint(2, 8)
@@ -168,10 +170,12 @@ class DatasetWorld(object):
         from dsim.worlds.arrays import install_init_monitor
         install_init_monitor()
         for k, v in (("indexing.by", "label"), ("indexing.broadcast", True), ("op.broadcast", True),
-                     ("op.reindex", True), ("align.join", "outer")):
+                     ("op.reindex", True), ("align.join", cfg.get("align_join", "outer"))):
             dimarray.rcParams[k] = v
         self.cfg = cfg
         self.props = set(props)
+        self.donors = []      # arrays handed to the dataset (C15: later changes of the dataset must not reach them)
+        self.last_dsop = None
         self.ds = None
         self.model = None
         self.counts = []
@@ -182,6 +186,7 @@ class DatasetWorld(object):
         self.queue = []
         self.base_left = cfg.get("n_base", 0)
         self.started = False
+        self.mutated_since_dsop = False
         if cfg.get("mode") == "enum":
             self.queue.append({"op": "_enum_marker"})
 
@@ -200,7 +205,7 @@ class DatasetWorld(object):
         pass
 
     def close(self):
-        pass
+        self.da.rcParams["align.join"] = "outer"
 
     def state_key(self):
         if self.ds is None:
@@ -233,6 +238,12 @@ class DatasetWorld(object):
             if st is not None:
                 return st
         if r < cfg["reject_rate"] + cfg["op_rate"] and self.model.vars:
+            if self.last_dsop is not None and self.mutated_since_dsop and rng.random() < 0.3:
+                # the very same operation again after the dataset was mutated: stale per-instance caches show here
+                st = dict(self.last_dsop)
+                st["adopt"] = False
+                st["repeat"] = True
+                return st
             st = self._gen_dsop(rng)
             if st is not None:
                 return st
@@ -575,6 +586,20 @@ class DatasetWorld(object):
             out = fn(step)
         except Skip:
             return "skipped"
+        if op == "dsop":
+            if not step.get("adopt") and not step.get("repeat"):
+                self.last_dsop = step
+                self.mutated_since_dsop = False
+            elif step.get("adopt"):
+                self.last_dsop = None
+        elif op in ("rename", "rename_bulk", "relabel", "axes_setitem", "set", "del"):
+            self.mutated_since_dsop = True
+        if "C15" in self.props and self.donors:
+            for a, snap0, what in self.donors:
+                now = donor_key(a)
+                if now != snap0:
+                    raise Violation("C15", "operand_changed", "the array handed to %s changed when the dataset was later modified by %s: %s" % (
+                        what, op, V.describe_snap_diff(snap0, now)))
         if "C13" in self.props and self.ds is not None and op not in ("dsop",):
             self.check_invariants(self.ds, self.model, "after %s" % op)
         return out
@@ -669,6 +694,8 @@ class DatasetWorld(object):
             for a, b, k in zip(arrs, before, s["keys"]):
                 if V.snap(a) != b:
                     raise Violation("C15", "operand_changed", "Dataset(...) changed input %s" % k)
+        if "C15" in self.props:
+            self.donors = [(a, donor_key(a), "Dataset(...)") for a in arrs][-3:]
         if differing:
             self.count("c13:ctor_outer_join")
         self.ds, self.model = ds, model
@@ -689,6 +716,8 @@ class DatasetWorld(object):
             raise Skip("raised")
         if a_before is not None and V.snap(a) != a_before:
             raise Violation("C15", "operand_changed", "ds[%r] = a changed a: %s" % (s["key"], V.describe_snap_diff(a_before, V.snap(a))))
+        if "C15" in self.props:
+            self.donors = (self.donors + [(a, donor_key(a), "ds[%r] = a" % s["key"])])[-3:]
         self.model.setitem(s["key"], spec)
         self.n_mut += 1
         return "ok"
@@ -942,6 +971,11 @@ class DatasetWorld(object):
     def x_dsop(self, s):
         from dsim.worlds import dataset_ops
         return dataset_ops.run_dsop(self, s)
+
+
+def donor_key(a):
+    """Dims, labels and metadata of an array (not its values: a Dataset shares the value buffer by design)."""
+    return (tuple(V.snap_axis(ax) for ax in list.__iter__(a._axes)), V.attrs_key(a._attrs))
 
 
 def _same_label(a, b):
